@@ -161,6 +161,117 @@ def build_props(pid):
     return res
 
 
+GEN_FILES = ("Consts", "Tables", "Audit", "Formats")
+
+
+def sources_hash():
+    """hash of every hand-written Coq source (everything except coq/Gen) and the project file"""
+    h = hashlib.sha256()
+    for dp, dn, fns in sorted(os.walk(COQ)):
+        dn.sort()
+        if os.path.basename(dp) == "Gen":
+            continue
+        for fn in sorted(fns):
+            if fn.endswith(".v") or fn == "_CoqProject":
+                h.update(fn.encode())
+                h.update(open(os.path.join(dp, fn), "rb").read())
+    return h.hexdigest()[:20]
+
+
+def gen_status():
+    p = os.path.join(COQ, "Gen", "status.json")
+    if os.path.exists(p):
+        return json.load(open(p))
+    return {"underived": [], "changed": []}
+
+
+def theorem_deps(pid, theorems):
+    """names of the generated definitions (coq/Gen) in the transitive dependency cone of the theorems of
+    Props/<pid>.v, computed by the dpdgraph plugin on the compiled development"""
+    if not theorems:
+        return []
+    wd = os.path.join(WORK, "deps")
+    os.makedirs(wd, exist_ok=True)
+    names = set()
+    for t in theorems:
+        dpd = os.path.join(wd, "%s_%s.dpd" % (pid, t))
+        vf = os.path.join(wd, "Deps_%s_%s.v" % (pid, t))
+        with open(vf, "w") as f:
+            f.write("From DNS Require Import Props.%s.\nFrom dpdgraph Require Import dpdgraph.\n"
+                    "Set DependGraph File \"%s\".\nPrint DependGraph %s.\n" % (pid, dpd, t))
+        rc, out = sh(["coqc", "-Q", COQ, "DNS", vf], cwd=wd, timeout=900)
+        if rc != 0 or not os.path.exists(dpd):
+            return None
+        for line in open(dpd, encoding="utf-8", errors="replace"):
+            if line.startswith("N:"):
+                m = re.match(r'N: \d+ "([^"]+)" \[.*path="([^"]*)"', line)
+                if m and m.group(2).split(".")[-1] in GEN_FILES:
+                    names.add(m.group(1))
+    shutil.rmtree(wd, ignore_errors=True)
+    return sorted(names)
+
+
+PROVED = os.path.join(COQ, "proved.json")
+
+
+def load_proved():
+    if os.path.exists(PROVED):
+        try:
+            return json.load(open(PROVED))
+        except Exception:
+            pass
+    return {}
+
+
+def record_proved(pid, pb):
+    """remember a successful build of Props/<pid>.v on the baseline tables: theorems, assumptions, the
+    dependency cone on generated definitions, keyed by the hash of the hand-written sources"""
+    d = load_proved()
+    deps = theorem_deps(pid, pb["theorems"])
+    if deps is None:
+        return
+    d[pid] = {"srchash": sources_hash(), "theorems": pb["theorems"], "assumptions": pb["assumptions"], "deps": deps}
+    with open(PROVED, "w") as f:
+        json.dump(d, f, indent=1)
+
+
+def build_props_cone(pid):
+    """obligations of a property under the CURRENT generated tables.
+    - no generated definition differs from the baseline: ordinary (incremental) build of Props/<pid>.vo;
+    - some differ but none lies in the dependency cone of this property's theorems (dpdgraph): the theorems
+      and their proofs do not mention what changed, so the recorded baseline build stands (no rebuild);
+    - a definition of the cone could not be re-derived from the source: the obligation is broken;
+    - a definition of the cone changed value: rebuild against the new tables."""
+    st = gen_status()
+    changed = set(st["changed"])
+    rec = load_proved().get(pid)
+    if changed and rec and rec["srchash"] == sources_hash():
+        hit = sorted(changed & set(rec["deps"]))
+        if not hit:
+            return {"ok": True, "log": "", "theorems": rec["theorems"], "assumptions": rec["assumptions"], "wall": 0,
+                    "failing": None, "cone": {"deps": len(rec["deps"]), "changed": sorted(changed), "hit": []},
+                    "mode": "dependency cone unaffected: recorded baseline build stands"}
+        under = sorted(set(st["underived"]) & set(rec["deps"]))
+        if under:
+            return {"ok": False, "log": "", "theorems": rec["theorems"], "assumptions": {}, "wall": 0,
+                    "failing": "Gen: " + ", ".join(under),
+                    "error": "the translator could not re-derive %s from /repo/src; the theorems of Props/%s.v depend on it"
+                             % (", ".join(under), pid),
+                    "cone": {"deps": len(rec["deps"]), "changed": sorted(changed), "hit": hit}, "mode": "cone hit (not re-derived)"}
+        pb = build_props(pid)
+        pb["cone"] = {"deps": len(rec["deps"]), "changed": sorted(changed), "hit": hit}
+        pb["mode"] = "cone hit: rebuilt against the regenerated tables"
+        return pb
+    pb = build_props(pid)
+    pb["mode"] = "full build"
+    if pb["ok"] and not changed and (rec is None or rec["srchash"] != sources_hash() or rec.get("theorems") != pb["theorems"]):
+        record_proved(pid, pb)
+    rec = load_proved().get(pid)
+    if rec:
+        pb["cone"] = {"deps": len(rec["deps"]), "changed": sorted(changed), "hit": sorted(changed & set(rec["deps"]))}
+    return pb
+
+
 def build_driver():
     """extraction + ocamlfind ocamlopt; only when model.ml changed"""
     if not os.path.exists(os.path.join(COQ, "model.ml")):
